@@ -277,6 +277,7 @@ def find_cases(path, ids):
 
 
 TRUSTED = [
+    "wire format of the tie cases: the Python serialiser checks/emitter.py:e_case and the Gallina deserialiser Model/EmitterTie.v:decode_case (a token stream that does not parse, or parses into something else than what the harness observed, shows as a disagreement, code 99 or a field code; it cannot turn a disagreement into an agreement except by encoding exactly the model's answer)",
     "Coq 8.16.1 kernel incl. its bytecode VM (vm_compute); no axioms (Print Assumptions: closed under the global context)",
     "hand-written model coq/Model/Emitter.v, tied to the compiled code on this run by differential execution (see traces_validated_against_impl and the input distribution); the tie is testing, the theorems are about the model",
     "harness/emittool.go: generator, per-call classification of instruction methods by probing separate instances of the real emitter, listing-record parsers",
